@@ -210,7 +210,7 @@ class FunctionVerifier:
             except PyRaise as pr:
                 raised = pr.exc
             except PathDone:
-                if str(st.solver.check()) != "unsat":
+                if st.feasible(z3.BoolVal(True)):
                     rep.reachable_paths += 1
                     for ob in st.obligations:
                         rep.add(ob)
@@ -231,8 +231,7 @@ class FunctionVerifier:
                 old_items = old[0][(st.ghost[g].ref, "items")] if (st.ghost[g].ref, "items") in old[0] else ()
                 env[g] = VTuple(list(st.heap[(st.ghost[g].ref, "items")])[len(old_items):])
         # ---- reachability of this path end
-        r = st.solver.check()
-        if str(r) != "unsat":
+        if st.feasible(z3.BoolVal(True)):
             rep.reachable_paths += 1
         else:
             raise PathInfeasible()
